@@ -404,6 +404,13 @@ def r22_write_macro(sig, body):
     return sig, body, n
 
 
+def r23_debug_assert(sig, body):
+    """R23: `debug_assert!(E)` -> `debug_assert_checked(E)` (stub with `requires E`: in the checked build configuration a
+    false E is a panic, so E becomes an obligation of every caller; the optimised build does not evaluate it)"""
+    body, n = re.subn(r'\bdebug_assert!\s*\(', 'debug_assert_checked(', body)
+    return sig, body, n
+
+
 RULES = {
     'R1': r1_error_macro,
     'R3': r3_continue_guard,
@@ -424,6 +431,7 @@ RULES = {
     'R20': r20_ptr_offset,
     'R21': r21_opcode_cast,
     'R22': r22_write_macro,
+    'R23': r23_debug_assert,
 }
 
 DESCRIPTIONS = {k: (v.__doc__ or '').strip() for k, v in RULES.items()}
